@@ -196,3 +196,65 @@ inst!(neon_top_wiring_20, [props=C01+C02+C07+C09 xprops=C05+C14 tier=quick cfg=n
 #[cfg(vcfg_simd128)]
 inst!(simd128_top_wiring_20, [props=C01+C02+C07+C09 xprops=C05+C14 tier=quick cfg=simd128 t=1800 role=simd128-top-level-wiring uw=verif_emul:17;find_raw.0:2;find_raw.1:3;count_raw.0:2;count_raw.1:3;byte_by_byte:17;oracle::count:22], 3,
     simd128::top_wiring::<20>());
+
+// ---------------------------------------------------------------------------
+// The fast bit-vector intrinsic models are equivalent to the lane-wise
+// reference models, for all inputs.
+
+#[cfg(all(kani, vcfg_neon))]
+pub fn emul_equiv_neon() {
+    use memchr::verif_emul::aarch64 as f;
+    use memchr::verif_emul_ref::aarch64_ref as r;
+    let a: [u8; 16] = kani::any();
+    let b: [u8; 16] = kani::any();
+    let x: u8 = kani::any();
+    let le = |v: [u8; 16]| u128::from_le_bytes(v);
+    unsafe {
+        let (fa, ra) = (f::vld1q_u8(a.as_ptr()), r::vld1q_u8(a.as_ptr()));
+        let (fb, rb) = (f::vld1q_u8(b.as_ptr()), r::vld1q_u8(b.as_ptr()));
+        assert!(fa.0 == le(ra.0) && fb.0 == le(rb.0), "oracle: vld1q_u8 models differ");
+        assert!(f::vdupq_n_u8(x).0 == le(r::vdupq_n_u8(x).0), "oracle: vdupq_n_u8 models differ");
+        assert!(f::vceqq_u8(fa, fb).0 == le(r::vceqq_u8(ra, rb).0), "oracle: vceqq_u8 models differ");
+        assert!(f::vandq_u8(fa, fb).0 == le(r::vandq_u8(ra, rb).0), "oracle: vandq_u8 models differ");
+        assert!(f::vorrq_u8(fa, fb).0 == le(r::vorrq_u8(ra, rb).0), "oracle: vorrq_u8 models differ");
+        assert!(f::vpmaxq_u8(fa, fb).0 == le(r::vpmaxq_u8(ra, rb).0), "oracle: vpmaxq_u8 models differ");
+        let (f16, r16) = (f::vreinterpretq_u16_u8(fa), r::vreinterpretq_u16_u8(ra));
+        let i: usize = kani::any();
+        kani::assume(i < 8);
+        assert!(((f16.0 >> (16 * i)) & 0xFFFF) as u16 == r16.0[i], "oracle: vreinterpretq_u16_u8 models differ");
+        let (fs, rs) = (f::vshrn_n_u16(f16, 4), r::vshrn_n_u16(r16, 4));
+        assert!(fs.0 == u64::from_le_bytes(rs.0), "oracle: vshrn_n_u16 models differ");
+        let (f1, r1) = (f::vreinterpret_u64_u8(fs), r::vreinterpret_u64_u8(rs));
+        assert!(f::vget_lane_u64(f1, 0) == r::vget_lane_u64(r1, 0), "oracle: vget_lane_u64 models differ");
+        let (f2, r2) = (f::vreinterpretq_u64_u8(fa), r::vreinterpretq_u64_u8(ra));
+        assert!(f::vgetq_lane_u64(f2, 0) == r::vgetq_lane_u64(r2, 0), "oracle: vgetq_lane_u64(0) models differ");
+        assert!(f::vgetq_lane_u64(f2, 1) == r::vgetq_lane_u64(r2, 1), "oracle: vgetq_lane_u64(1) models differ");
+        kani::cover!(a[3] == b[3] && a[4] != b[4], "mixed equal / different lanes");
+    }
+}
+
+#[cfg(all(kani, vcfg_simd128))]
+pub fn emul_equiv_simd128() {
+    use memchr::verif_emul::wasm32 as f;
+    use memchr::verif_emul_ref::wasm32_ref as r;
+    let a: [u8; 16] = kani::any();
+    let b: [u8; 16] = kani::any();
+    let x: u8 = kani::any();
+    let le = |v: [u8; 16]| u128::from_le_bytes(v);
+    unsafe {
+        let (fa, ra) = (f::v128_load(a.as_ptr().cast()), r::v128_load(a.as_ptr().cast()));
+        let (fb, rb) = (f::v128_load(b.as_ptr().cast()), r::v128_load(b.as_ptr().cast()));
+        assert!(fa.0 == le(ra.0) && fb.0 == le(rb.0), "oracle: v128_load models differ");
+        assert!(f::u8x16_splat(x).0 == le(r::u8x16_splat(x).0), "oracle: u8x16_splat models differ");
+        assert!(f::u8x16_eq(fa, fb).0 == le(r::u8x16_eq(ra, rb).0), "oracle: u8x16_eq models differ");
+        assert!(f::v128_and(fa, fb).0 == le(r::v128_and(ra, rb).0), "oracle: v128_and models differ");
+        assert!(f::v128_or(fa, fb).0 == le(r::v128_or(ra, rb).0), "oracle: v128_or models differ");
+        assert!(f::u8x16_bitmask(fa) == r::u8x16_bitmask(ra), "oracle: u8x16_bitmask models differ");
+        kani::cover!(a[3] == b[3] && a[4] != b[4], "mixed equal / different lanes");
+    }
+}
+
+#[cfg(vcfg_neon)]
+inst!(emul_equiv_neon_h, [props=C01+C02+C07+C09+C11 tier=quick cfg=neon t=900 role=intrinsic-model-equivalence], 18, emul_equiv_neon());
+#[cfg(vcfg_simd128)]
+inst!(emul_equiv_simd128_h, [props=C01+C02+C07+C09+C11 tier=quick cfg=simd128 t=900 role=intrinsic-model-equivalence], 18, emul_equiv_simd128());
